@@ -31,13 +31,14 @@ STATE_MEASURE = 'distinct digests of the online operator memory (every operation
 
 
 def gen(rng, tier):
-    nv = rng.randint(1, 3)
+    big = tier == 'thorough'
+    nv = rng.randint(1, 4 if big else 3)
     vars_ = common.VARS[:nv]
-    cfg = sg.GenCfg(vars=vars_, ops=common.PAST_OPS, max_depth=rng.randint(2, 5), max_bound=rng.choice([2, 4, 6]),
+    cfg = sg.GenCfg(vars=vars_, ops=common.PAST_OPS, max_depth=rng.randint(2, 6 if big else 5), max_bound=rng.choice([2, 4, 6] + ([8, 10] if big else [])),
                     p_reuse=rng.choice([0.0, 0.33, 0.33, 0.5]))
     ast = sg.gen_formula(rng, cfg)
     text = 'out = ' + sg.to_text(ast, sg.Spelling(rng)) + ';'
-    n = rng.choice([1, 2, 3, 4, 5, 6, 8, 10, 12, 14])
+    n = rng.choice([1, 2, 3, 4, 5, 6, 8, 10, 12, 14] + ([18, 24] if big else []))
     data = world.gen_trace(rng, vars_, n)
     times, fired = world.faulty_clock(rng, n, kinds=[k for k in ('jitter_in', 'jitter_out', 'offset', 'float_stamps')
                                                       if rng.random() < 0.4])
@@ -49,7 +50,7 @@ def gen(rng, tier):
     if any(o != list(vars_) for o in orders):
         fired['input_reorder'] = sum(1 for o in orders if o != list(vars_))
     declared = list(vars_)
-    if rng.random() < 0.25 and nv < 3:
+    if rng.random() < 0.25 and nv < len(common.VARS):
         declared = common.VARS[:nv + 1]       # declared, supplied, but unused by the formula
         fired['surplus_var'] = 1
     co = None
